@@ -3,6 +3,7 @@
 package main
 
 import (
+	"strconv"
 	"bytes"
 	"flag"
 	"fmt"
@@ -529,6 +530,20 @@ func (in *instr) rangeStmt(r *ast.RangeStmt) ast.Stmt {
 }
 
 func (in *instr) callExpr(ce *ast.CallExpr, noYield bool) ast.Expr {
+	// make(chan T, <large literal>): the buffer size becomes a per-run knob (simrt.ChanCap), so that the
+	// behaviour behind a full buffer is reachable with ledgers of simulated size
+	if id, ok := ce.Fun.(*ast.Ident); ok && id.Name == "make" && len(ce.Args) == 2 {
+		if _, isChan := ce.Args[0].(*ast.ChanType); isChan {
+			if lit, ok := ce.Args[1].(*ast.BasicLit); ok && lit.Kind == token.INT {
+				if n, err := strconv.Atoi(lit.Value); err == nil && n >= 100 {
+					in.changed = true
+					total.knobs++
+					return &ast.CallExpr{Fun: ce.Fun, Args: []ast.Expr{ce.Args[0], call(sel("simrt", "ChanCap"), lit)}}
+				}
+			}
+		}
+		return nil
+	}
 	s, ok := ce.Fun.(*ast.SelectorExpr)
 	if !ok {
 		return nil
